@@ -16,10 +16,39 @@ def RemapSound (W : Colls) (T : Types) (R : List (GTy × Ty)) : Prop :=
       ∀ t, HasVT C (.defined d) t → HasVT T v' t) ∧
     (∀ f f', alGet R (GTy.mk' C (.func f)) = some (.func f') → ∀ t, HasFn C f t → HasFn T f' t)
 
+/-- entries of `remapped` for defined types / function types point at value types / function types
+(so `remap_value_type`, `remap_defined_type`, `remap_func_type` do not hit their `expected a …`
+panics once `cfg.remapReplaced` holds) -/
+def TableShape (R : List (GTy × Ty)) : Prop :=
+  (∀ uid d ty, alGet R ⟨uid, .value (.defined d)⟩ = some ty → ∃ v, ty = .value v) ∧
+  (∀ uid f ty, alGet R ⟨uid, .func f⟩ = some ty → ∃ f', ty = .func f')
+
+theorem TableShape.insert {R : List (GTy × Ty)} (h : TableShape R) (g : GTy) (ty0 : Ty)
+    (hv : ∀ d, g.ty = .value (.defined d) → ∃ v, ty0 = .value v)
+    (hf : ∀ f, g.ty = .func f → ∃ f', ty0 = .func f') : TableShape (alInsert R g ty0) := by
+  refine ⟨fun uid d ty hg => ?_, fun uid f ty hg => ?_⟩
+  · rw [alGet_alInsert] at hg
+    split at hg
+    · rename_i he
+      have := eq_of_beq he
+      subst this
+      cases hg
+      exact hv d rfl
+    · exact h.1 uid d ty hg
+  · rw [alGet_alInsert] at hg
+    split at hg
+    · rename_i he
+      have := eq_of_beq he
+      subst this
+      cases hg
+      exact hf f rfl
+    · exact h.2 uid f ty hg
+
 /-- invariant of the aggregator state used by the remap functions -/
 structure RInv (W : Colls) (s : AggState) : Prop where
   sound : RemapSound W s.agg.types s.agg.remapped
   closed : Closed s.agg.types
+  shape : TableShape s.agg.remapped
 
 /-- what a remap step may change: it appends to the value-level arenas and adds `remapped`
 entries for ids of the collection with uid `u` -/
@@ -151,7 +180,9 @@ theorem push_defined_spec (s : AggState) (hI : RInv W s) (id : Nat) (dt dt' : De
       rw [eq_of_beq he |>.symm]
       exact gty_uid_of_hasId _ _ rfl
     · exact .inl hg
-  refine ⟨⟨?_, ?_⟩, hstep, ?_⟩
+  have hshape : TableShape s'.agg.remapped :=
+    hI.shape.insert _ _ (fun _ _ => ⟨_, rfl⟩) (fun f hf => by simp [GTy.mk'] at hf)
+  refine ⟨⟨?_, ?_, hshape⟩, hstep, ?_⟩
   · -- RemapSound
     intro C hC
     obtain ⟨h1, h2⟩ := hI.sound.ext hext C hC
@@ -559,7 +590,8 @@ theorem remapFunc_spec (n : Nat) (f : Nat) (s : AggState) (f' : Nat) (s' : AggSt
             rw [unfoldNamed_congr H hps2 psT g1, unfoldOpt_congr H hr rT g2]
             exact hm
           · cases hm
-        refine ⟨⟨?_, ?_⟩, (hst1.trans hst2).trans hstep3, ?_⟩
+        refine ⟨⟨?_, ?_, hI2.shape.insert _ _ (fun d hd => by simp [GTy.mk'] at hd) (fun _ _ => ⟨_, rfl⟩)⟩,
+          (hst1.trans hst2).trans hstep3, ?_⟩
         · intro C hC
           obtain ⟨k1, k2⟩ := hI2.sound.ext hext C hC
           refine ⟨fun d v' hg' t ht => ?_, fun f0 f0' hg' t ht => ?_⟩
